@@ -341,17 +341,17 @@ def frame_message(rng, payload, opcode, rsv1, masked, with_ping=True, allow_empt
     return b"".join(out), pings
 
 
-def peer_exchange(R, case, w, ep, role, ext, wire, rng, fam):
+def peer_exchange(R, case, w, ep, role, ext, wire, rng, fam, plans=None):
     """``ep`` is the real endpoint of ``role``; the harness is an independent peer that derives everything from the
     headers (``wire``)."""
     sh = SHORT[ext]
     d_in, d_out = ("c2s", "s2c") if role == "server" else ("s2c", "c2s")
     refD, _ = CC.ref_codecs(ext, wire, d_in, "sync", rng)
     _, refI = CC.ref_codecs(ext, wire, d_out)
-    mixed = CC.MixedRefDeflater(refD) if (ext == CC.DEFLATE and refD is not None) else None
+    mixed = CC.MixedRefDeflater(refD) if isinstance(refD, R7.RefDeflater) else None
     modes = rng.choice([("sync",), ("sync", "split"), ("stored", "sync", "fullflush"), ("sync", "bfinal"),
                         CC.MixedRefDeflater.MODES])
-    plan_in, plan_out = CC.message_plan(rng, "in", "light"), CC.message_plan(rng, "out", "light")
+    plan_in, plan_out = plans or (CC.message_plan(rng, "in", "light"), CC.message_plan(rng, "out", "light"))
     masked = role == "server"
     n_in = n_out = 0
     compared = 0
@@ -369,7 +369,8 @@ def peer_exchange(R, case, w, ep, role, ext, wire, rng, fam):
                     payload = mixed.deflate(msg, modes[n_in % len(modes)])
                     style = "after-bfinal-block" if mixed.bfinal_seen else "sync-flush"
                 else:
-                    payload, style = refD.deflate(msg), "whole-stream"
+                    payload = refD.deflate(msg)
+                    style = "small-window" if ext == CC.DEFLATE else "whole-stream"
             else:
                 payload, style = msg, "uncompressed"
             data, pings = frame_message(rng, payload, ref.OP_BIN if binary else ref.OP_TEXT, compress, masked)
@@ -561,6 +562,29 @@ def drive_response(R, case):
             return
         if case["expect"] == "grey":
             R.count("grey_responses_opened" if opened else "grey_responses_failed")
+            return
+        if case["expect"] == "fail-or-lossless":
+            # window size 8: valid in RFC 7692, outside the library's documented 9..15.  Sound under both readings:
+            # EITHER the client fails the handshake OR what it opened works - compressed messages in both directions
+            # against a peer that honours exactly the negotiated parameters, and sendMessage() does not raise
+            R.count("window8_cases_evaluated")
+            R.seen("nontrivial", "window-8/" + h([w.world.fw, case["headers"], case["seed"]]))
+            if not opened:
+                R.count("window8_handshake_failed")
+                return
+            R.count("window8_handshake_opened")
+            j = R7.judge_negotiation(ext_header(ref.parse_http_head(req)), case["headers"][0])
+            p = cl.proto._perMessageCompress
+            if not j["ok"] or j["ext"] != CC.DEFLATE or p is None:
+                R.violation("C12/window-8/deflate/opened-without-usable-extension",
+                            "client opened on a window-8 response but no permessage-deflate object is in use", det, case)
+                return
+            wire = R7.wire_params(CC.DEFLATE, j["resp"])
+            for clause in one_sided_problems(CC.DEFLATE, wire, p, "client"):
+                R.violation("C12/window-8/deflate/client/%s" % clause,
+                            "client runs with parameters incompatible with the response it accepted", dict(det, wire=wire), case)
+            plans = (CC.small_window_plan(rng, "in"), CC.small_window_plan(rng, "out"))
+            peer_exchange(R, case, w, cl, "client", CC.DEFLATE, wire, rng, "window-8", plans)
             return
         # valid control: monitors are not vacuous + data exchange with the reference codecs
         if not opened:
